@@ -3,6 +3,7 @@ from ..core import Rule
 from ..prog import *
 from ..facts import AnalysisBroken
 from .. import bufmodel
+from .. import evbmodel
 
 UNITS = ["buffer"]
 LEVEL = "other"
@@ -107,4 +108,5 @@ def run(ctx, config):
     r1.notes.append("fallible functions inferred: %s" % sorted(k for k in F.fallible if k in B.byname))
     r1.notes.append("committing functions inferred: %s" % sorted(B.committing))
     rules += [r1, r2, r3]
+    rules.append(evbmodel.rule_oom(P, "C14-alloc-failure"))
     return rules
